@@ -23,10 +23,16 @@ impl Heap {
             if should_trace && let Some(obj) = self.get(r) {
                 match &obj.kind {
                     ObjectKind::Function(f) => {
-                        for v in &f.function.constants {
-                            if let Some(p) = v.as_ptr() {
-                                worklist.push(GcRef::new(p));
+                        // nested functions live inside their parent until MakeClosure
+                        // instantiates them: their constants are reachable through the parent
+                        let mut funcs = vec![&f.function];
+                        while let Some(func) = funcs.pop() {
+                            for v in &func.constants {
+                                if let Some(p) = v.as_ptr() {
+                                    worklist.push(GcRef::new(p));
+                                }
                             }
+                            funcs.extend(func.nested_functions.iter());
                         }
                     }
                     ObjectKind::Closure(c) => {
